@@ -113,6 +113,28 @@ def _run(ctx, spec):
             c["_driver"] = d["test"]
             c["_corr"] = c.get("corr") or d.get("corr_module", corr)
         all_cases += r.cases
+        # the same driver once more on a 32-bit platform (routers are often 32-bit ARM / MIPS: `int` is 32 bits,
+        # 64-bit atomics need alignment): quick-size streams, same model, same checkers
+        if ctx.tier in d.get("arch386", ["thorough"]) and not d.get("race"):
+            env386 = dict(denv)
+            env386.update({"GOARCH": "386", "VERIF_TIER": "quick"})
+            r3 = vlib.run_driver(ctx, d["pkg"], d["test"], newgo=d.get("newgo", False), extra=env386,
+                                 timeout=d["timeout"].get("quick", 900) if isinstance(d.get("timeout"), dict) else d.get("timeout", 900),
+                                 race=False, tag=str(k) + "x386")
+            driver_walls[d["test"] + "@386"] = round(r3.wall, 1)
+            if not r3.compiled:
+                log(r3.out[-4000:])
+                ctx.broken.append(("driver-build", d["test"] + "@386", r3.out[-1500:]))
+            else:
+                if not r3.ok:
+                    log(r3.out[-6000:])
+                    ctx.broken.append(("driver-run", d["test"] + "@386", r3.out[-3000:]))
+                for c in r3.cases:
+                    c["_driver"] = d["test"] + "@386"
+                    c["_corr"] = c.get("corr") or d.get("corr_module", corr)
+                    c["tags"] = list(c.get("tags", [])) + ["arch:386"]
+                    c["id"] = str(c.get("id")) + "@386"
+                all_cases += r3.cases
 
     # implementation-only assertions reported by drivers ({"impl_violation": "...", ...})
     eval_cases = []
